@@ -1,1 +1,2 @@
-import Driver.LinesMain
+import Driver.Codec
+import Driver.Enum
